@@ -88,11 +88,33 @@ def required(tier):
   n = 20 if q else 250
   return {'C14.trace-captured': n, 'C14.psd': n, 'C14.budget': n * 2 // 3,
           'C14.initial-matrix': n, 'C14.trace-follows-scheme': n,
-          'C14.result-last-accepted': n, 'C14.diagonal': 10 if q else 120}
+          'C14.result-last-accepted': n, 'C14.diagonal': 10 if q else 120,
+          'C14.first-projection-converges': n}
 
 
 def _sumsq(A, diffs):
   return float(np.einsum('ij,jk,ik->', diffs, A, diffs))
+
+
+def _reference_projection_converges(A0, S, t, max_proj, eps=0.01):
+  d = A0.shape[0]
+  w = np.zeros((d, d))
+  for v in S:
+    w += np.outer(v, v)
+  w = w.ravel()
+  wn = np.linalg.norm(w)
+  w1, t1 = w / wn, t / wn
+  A = np.array(A0, dtype=float, copy=True)
+  for _ in range(int(max_proj)):
+    x = A.ravel()
+    if w.dot(x) > t:
+      x = x + (t1 - w1.dot(x)) * w1
+    A = x.reshape(d, d)
+    lam, V = np.linalg.eigh((A + A.T) / 2)
+    A = (V * np.maximum(lam, 0)).dot(V.T)
+    if (w.dot(A.ravel()) - t) / t < eps:
+      return True
+  return False
 
 
 def run_case(spec, j):
@@ -211,6 +233,23 @@ def run_case(spec, j):
   j.close('C14.result-last-accepted', M, accepted,
           1e-8 * max(np.abs(accepted).max(), 1e-300),
           dict(det, cycles=len(trace) // 2, accepted=n_acc))
+  if not first_feasible:
+    # precondition of the budget clause: "max_proj large enough for one
+    # projection to converge".  Decide it independently: run the documented
+    # alternating projection (similarity half-space, then PSD cone) from the
+    # initial matrix with the same max_proj.
+    if _reference_projection_converges(A0, S, t, p['max_proj']):
+      j.violated('C14.first-projection-converges',
+                 dict(det, why='the documented alternating projection reaches '
+                      'the similarity budget from the initial matrix within '
+                      'max_proj, but the first candidate of the solver is '
+                      'infeasible', budget=t,
+                      sum_sq_candidate=_sumsq(trace[1][0], S)),
+                 mechanism='first-projection-infeasible')
+    else:
+      j.ok('C14.first-projection-converges')
+  else:
+    j.ok('C14.first-projection-converges')
   if first_feasible:
     ssqM = _sumsq(M, S)
     j.check('C14.budget', ssqM <= 1.01 * (1 + 1e-9) * t,
